@@ -72,6 +72,7 @@ type Exec struct {
 	curStmtPos token.Pos
 	closures map[types.Object]*ast.FuncLit
 	boxAx    map[string]bool
+	sendValue ast.Expr // the value expression of the send statement whose assertions are being evaluated
 	loopsUsed map[int]bool
 	UsedContracts map[string]bool
 	loopOrdOf map[ast.Stmt]int
